@@ -35,7 +35,7 @@ def run(res, tier, seed, shard, nshards):
                 continue
             for pos in ("before", "inside", "after"):
                 cases.append(("len", n, mode, pos))
-    for i in range(800 if tier == "quick" else 15000):
+    for i in range(800 if tier == "quick" else 150000):
         cases.append(("rand", i))
 
     def scen():
